@@ -34,6 +34,11 @@ CLAIMED = {
    note="Trusted: Coq kernel; Pchk.v as hand-written mirror of the C construction and, by transcription from memory, of RFC 5170 5.2-5.3 (RFC text unavailable offline); c2gallina for the PRNG; Flocq + stdlib real-number axioms (through the PRNG theorems); extraction, drivers.",
    technique="Coq proof over a hand-written model using the translator-generated PRNG + extracted-model-vs-C matrix correspondence",
    ref="3/C05"),
+ "C06": dict(
+   text="Machine-checked proof (Coq, no axioms) for the model of the LDPC-Staircase (and, same text, 2D parity) repair-symbol builder: for ANY staircase-shaped matrix, after building the repair symbols in increasing ESI order every parity equation sums to zero, source symbols are untouched, and the repair values are the unique ones with that property (any size, any symbol group). The Reed-Solomon half (product by the systematic generator from the Vandermonde matrix on 0,1,a,a^2,... over x^4+x+1 / x^8+x^4+x^3+x^2+1, byte compatibility of the two codecs) is decided on the compiled C by an independent python implementation of the canonical generator: all (k,n) of GF(2^4) in thorough, boundary and random shapes of GF(2^8) on both codecs; plus NULL output slots, dirty caller buffers, repeated builds, decreasing ESI order, unchanged sources.",
+   note="Trusted: Coq kernel; LdpcEnc.v mirror (staircase shape checked on every dumped matrix); python canonical generator; drv_enc.c. RS half has no theorem yet.",
+   technique="Coq proof (LDPC encoder) + independent canonical-generator oracle (RS) on the compiled C",
+   ref="3/C06"),
  "C07": dict(
    text="Exploration only: every generated life cycle of the three codecs (limits included: k up to 200/300, both APIs, callbacks, both decoder roles, early release) runs under ASan/UBSan with each application buffer in its own exact-size heap block, and every buffer handed to the library is compared before/after. No theorem: pointer-level memory safety of compiled C cannot be stated in a Gallina model without a C semantics (none is installed); the index-range/ownership ledger model of DESIGN 3/C07 has not been built.",
    note="Trusted: ASan/UBSan runtime (alignment and shift-base checks disabled, see tools/vlib.py), drv_dec.c.",
@@ -59,6 +64,11 @@ CLAIMED = {
    note="Trusted: Coq kernel; RSApi.v mirror; drivers and oracle. LDPC part has no theorem.",
    technique="Coq proof over the RS API model + extracted-model-vs-C correspondence + callback oracle",
    ref="3/C11", cat="proof"),
+ "C12": dict(
+   text="Machine-checked proof (Coq): generic interleaving theorem (for any machine whose steps keep the shared global state out of the session's next state and output, a session's outputs in ANY interleaving equal its outputs alone from ANY global state), instantiated for the one API step that reads shared state, LDPC-Staircase configuration (refused seeds rejected up front, accepted seeds overwrite of_seed before its first read: C05/C09/C19). For all other steps locality is validated on the compiled C: groups of 2-4 sessions of mixed codecs, life cycles cut into single API calls and interleaved by random/alternating/delayed schedules in one process, against each session alone in a fresh process; every observable token compared.",
+   note="Trusted: Coq kernel (+ stdlib real axioms through the PRNG theorems); the locality hypothesis is a theorem only for LDPC configuration; drv_multi.c / drv_dec.c.",
+   technique="Coq proof (generic interleaving theorem + instance) + interleaved-vs-solo C runs",
+   ref="3/C12"),
  "C13": dict(
    text="Machine-checked proof (Coq) that the Gallina models of the seven symbol kernels (XOR one->one, many->one with the 8/4/2/1 operand grouping, one->many; GF(2^8) multiply-accumulate of both codecs, GF(2^4) bytewise and packed two-per-byte) change exactly bytes 0..size-1 of the destination(s) into the bytewise definition, read no operand byte at or beyond size, for every size and operand count (no bound), with the table rows proved to be field multiplication in C14. The models keep the C's loop structure and offset arithmetic; they are tied to the compiled C by a differential run (extracted model vs C under ASan, exact-size heap blocks, all 8 alignments, every size 0..70+, operand counts 0..20, every field constant).",
    note="Trusted: Coq kernel + vm_compute; Kernels.v's modelling of a word access as an access to the bytes it covers (LP64 little-endian non-SSE path); alignment exists only on the C side of the correspondence; extraction + drivers. No axioms.",
